@@ -311,3 +311,11 @@ for _sc in range(4):
       funcs=["generate_merge_patch", "cJSONUtils_GenerateMergePatchCaseSensitive", "merge_patch", "sort_object", "compare_json"], props=["C18"], covers=1, unwind=8,
       unwindset=_AP_UW + ["generate_merge_patch:4", "generate_merge_patch.0:5", "merge_patch:4", "merge_patch.0:4", "cJSON_Compare:4", "cJSONUtils_GenerateMergePatch:3"], timeout=(900, 3000),
       defs=["-DGM_SCEN=%d" % _sc, "-Dh_u_genmerge_b=h_u_genmerge_b_%d" % _sc], mem=30, tiers=())
+
+# fully concrete scenarios for the generators (one input each; supplementary, not a decision procedure for C17/C18)
+for _sc in range(5):
+    for _seed in (0, 1):
+        U("u_genmerge_c_%d%d" % (_sc, _seed), "both", "harness/u_genmerge_b.c", no_contract=True, shape="B", bound="ONE concrete input: scenario %d, value seed %d" % (_sc, _seed),
+          funcs=["generate_merge_patch", "cJSONUtils_GenerateMergePatchCaseSensitive", "merge_patch", "sort_object", "compare_json"], props=["C18"], covers=1, unwind=8,
+          unwindset=_AP_UW + ["generate_merge_patch:4", "generate_merge_patch.0:5", "merge_patch:4", "merge_patch.0:4", "cJSON_Compare:4", "cJSONUtils_GenerateMergePatch:3"], timeout=(600, 1800),
+          defs=["-DGM_SCEN=%d" % _sc, "-DGM_CONCRETE=%d" % _seed, "-Dh_u_genmerge_b=h_u_genmerge_c_%d%d" % (_sc, _seed)])
